@@ -329,6 +329,9 @@ def _signature(clause: str, verdict: dict, res: Dict[str, Any]) -> str:
     return f"C17/{name}/not-in-model:{'after-restart:' if restart else ''}{'fmt:' + fmts[0] if len(fmts) == 1 else 'any-format'}"
 
 
+DISAGREE: List[int] = []
+
+
 def _assess(results: List[Dict[str, Any]], verdicts: Dict[int, dict]):
     drift: List[int] = []
     best: Dict[str, Tuple[int, dict]] = {}
@@ -337,7 +340,10 @@ def _assess(results: List[Dict[str, Any]], verdicts: Dict[int, dict]):
         v = verdicts[r["tid"]]
         clauses = sorted({c for _, c in v["props"] if c != "drift"})
         if sorted(r["judge"]["clauses"]) != clauses:
-            raise tlc.TlcError(f"TLC and the driver disagree on the clauses of run {r['tid']}: {clauses} vs {r['judge']['clauses']}")
+            # the two evaluations of the same predicates (TLC on the trace, the driver on the files) disagree: keep every clause
+            # either of them found - a violating run is never dropped because the cross-check tripped
+            clauses = sorted(set(clauses) | set(r["judge"]["clauses"]))
+            DISAGREE.append(r["tid"])
         if any(c == "drift" for _, c in v["props"]) or (r["desync"] is not None and not clauses):
             drift.append(r["tid"])
         for c in clauses:
@@ -562,7 +568,9 @@ def run(tier: str, seed: int) -> Dict[str, Any]:
                          f"restart script) for {truncated} of {len(scripts)} recorder scripts")
         orders = sorted({r["order"] for r in results if r["order"] != "unknown"})
         if orders and orders != [order]:
-            raise tlc.TlcError(f"writer order differs between runs: {orders} vs probe {order}")
+            # the code under test does not show one handshake in all runs (e.g. a call that performs extra synchronisation
+            # operations): every run is still validated against the model of the probed handshake - it will diverge there
+            notes.append(f"handshake observed per run differs: {orders}; validating against the probed one ({order})")
 
         lap("code_driven_schedules_s")
         # 4. every run validated by TLC
